@@ -480,7 +480,7 @@ func (g *Gen) SetupBound(rule string) (sc BoundScenario, ok bool) {
 					data := a.G.W.Files[e.V2FileContract.FileMerkleRoot]
 					ci := a.G.C.Store.CI[len(a.G.C.Store.CI)-1].Copy()
 					idx := ref.ChallengeIndex(e.V2FileContract.Filesize, ci.ChainIndex.ID, e.ID)
-					leaf, path := ref.FileProof(data, int(idx))
+					leaf, path := RefProof(data, e.V2FileContract.FileMerkleRoot, int(idx))
 					res = types.V2FileContractResolution{Parent: e.Copy(), Resolution: &types.V2StorageProof{ProofIndex: ci, Leaf: leaf, Proof: toHashes(path)}}
 				}
 				return a.oneV2(types.V2Transaction{FileContractResolutions: []types.V2FileContractResolution{res}})
